@@ -121,6 +121,7 @@ func runC06(w *mon.W) {
 			var got string
 			var err error
 			p := mon.Try(func() { got, err = codon.Translate(s, tbl) })
+			retainCheck(w, sid, "Translate", got, fmt.Sprintf("codon.Translate of %d letters with table %d", len(s), g.ID))
 			w.Eval(n >= 6, mon.Hash64(fmt.Sprint(g.ID), s))
 			want := g.Translate(s)
 			rep := map[string]any{"table": g.ID, "dna": s}
